@@ -18,6 +18,8 @@ a function, so that equivalent shapes translate to the same table (never keyed o
   * `ifexp_assign`   — `x = a if c else b`  ->  `if c: x = a else: x = b`.
   * `match_to_if`    — `match s: case <literal|dotted name>: ...` -> if/elif on `==`; `case Cls():` -> `isinstance(s, Cls)`
                        (other patterns: left alone).
+  * `merge_same_test_ifs` — `if c: A else: B` directly followed by `if c: C else: D` on the same pure attribute path that
+                       A / B do not write -> `if c: A; C else: B; D`.
   * `sink_into_branches` — tail duplication: `if c: A else: B` followed by `S` -> `if c: A; S else: B; S` for a landmark
                        statement `S` (and the plain local assignments / logging between the `if` and `S`) — a call that
                        was duplicated in the two branches and is hoisted behind the if/else reads like the duplicated
@@ -714,6 +716,42 @@ def sink_into_branches(fn, is_landmark):
                 node.body = node.body + copy.deepcopy(moved)
                 node.orelse = node.orelse + moved
                 del blk[i + 1:j + 1]
+                changed = True
+                break
+            if changed:
+                break
+    ast.fix_missing_locations(fn)
+    return fn
+
+
+# ----------------------------------------------------------------------------------------------- adjacent ifs, same test
+
+def merge_same_test_ifs(fn, written_by_callees: set = frozenset()):
+    """`if c: A else: B` directly followed by `if c: C else: D` (same side-effect-free attribute path `c`; either `else`
+    may be missing) -> `if c: A; C else: B; D`, when nothing in A / B stores a name or attribute on the path of `c` (nor,
+    for `self.<attr>`, does a method the function calls write that attribute) and A / B contain no return / break /
+    continue: the second test then evaluates like the first."""
+    changed, rounds = True, 0
+    while changed and rounds < 6:
+        changed, rounds = False, rounds + 1
+        for blk in list(_blocks_of(fn)):
+            for i in range(len(blk) - 1):
+                a, b = blk[i], blk[i + 1]
+                if not (isinstance(a, ast.If) and isinstance(b, ast.If) and _is_path(a.test)
+                        and ast.unparse(a.test) == ast.unparse(b.test)):
+                    continue
+                if any(isinstance(n, (ast.Return, ast.Break, ast.Continue, ast.FunctionDef, ast.Lambda, ast.ClassDef,
+                                      ast.Global, ast.Nonlocal, ast.NamedExpr)) for n in ast.walk(a)):
+                    continue
+                pre = _path_prefixes(a.test)
+                stored = _stored_paths(ast.Module(body=a.body + a.orelse, type_ignores=[]))
+                if any(p in stored for p in pre):
+                    continue
+                if pre[-1] == "self" and len(pre) >= 2 and pre[-2].split(".", 1)[1] in written_by_callees:
+                    continue
+                a.body = a.body + b.body
+                a.orelse = a.orelse + b.orelse
+                del blk[i + 1]
                 changed = True
                 break
             if changed:
